@@ -126,7 +126,41 @@ def run(ctx):
               "rotations generated by R_z(atan 4/3) and R_y(pi/2)" % (LN, LP))
     ctx.assume("exact real/complex arithmetic; Clebsch-Gordan values taken as the exact algebraic numbers the kernel's formula denotes (sqrt exact)")
     ctx.out_of_scope("P invariants beyond l_max = %d; floating-point cancellation in the factorial formula for large l" % LP)
-    ctx.parallel_sections([("N", lambda c: part_N(c, LN)), ("power", lambda c: part_power(c, LN)), ("P", lambda c: part_P(c, LP))])
+    ctx.parallel_sections([("N", lambda c: part_N(c, LN)), ("power", lambda c: part_power(c, LN)), ("P", lambda c: part_P(c, LP)), ("wrapper", part_wrapper)])
+
+
+def part_wrapper(ctx):
+    """make_invariants (the function users call): the coefficients reach the P kernel as given and its values are returned as they
+    are, after the N invariants -- with symbolic coefficients and the kernel as a recording stub.  A wrapper that rescales
+    before and after the kernel would be flagged here, so a failure is decided by the numeric rotation test on the real code."""
+    from ..symc import SymC
+    msd = load_shimmed("chmpy.shape.shape_descriptors")
+    seen = {}
+
+    def kernel_stub(c):
+        seen["c"] = c
+        seen["out"] = np.array([Sym(z3.Real("P%d" % i)) for i in range(4)], dtype=object)
+        return seen["out"]
+    msd.p_invariants_c = kernel_stub
+    lmax = 2
+    n = (lmax + 1) ** 2
+    c = np.array([SymC(Sym(z3.Real("wr%d" % i)), Sym(z3.Real("wi%d" % i))) for i in range(n)], dtype=object)
+    ex = Explorer()
+    paths = ex.run(lambda: msd.make_invariants(lmax, c, kinds="NP"))
+    ctx.add_paths(ex)
+    why = None
+    if len(paths) != 1 or paths[0].exc is not None:
+        why = "make_invariants raises / forks on symbolic coefficients: %r" % (paths[0].exc if paths else None,)
+    else:
+        out = list(paths[0].value)
+        given = seen.get("c")
+        if given is None or len(given) != n or any(a is not b for a, b in zip(list(given), list(c))):
+            why = "the coefficients handed to the P kernel are not the coefficients given"
+        elif len(out) != lmax + 1 + 4 or any(a is not b for a, b in zip(out[lmax + 1:], list(seen["out"]))):
+            why = "the P invariants returned are not the kernel's values (N first, then P)"
+    ctx.record("wrapper: make_invariants hands the (symbolic) coefficients to the P kernel unchanged and returns [N..., P...] unmodified", "holds" if why is None else "counterexample", nontrivial=True)
+    if why:
+        ctx.violation("inv:wrapper", "make_invariants: %s" % why, {"lmax": 3, "seed": 4}, replay_invariants, soft=True)
 
 
 def part_N(ctx, LN):
